@@ -4,11 +4,14 @@
 //
 //   sh   <step>*     one hash.StringHash `cur` (plus `old`, the source of the last copy/merge)
 //        (put K V) (delete K) (get K) (cia K V) (copy) (merge (K V)*) (putall (K V)*) (freeze) (swap) (empty)
+//        (equals) (views)
 //   hash <step>*     a pool of immutable types.Hash values (and *MutableHashValue), addressed by position
 //        (wrap P*) (parse P*) (parsea P*) (build P*) (put I k v) (merge I J) (delete I k) (deleteAll I (k*))
 //        (get I k) (get4 I xSTR) (mnew) (mput I k v) (mputall I J)            P ::= (k v)
+//        (slice I i j) (select I (k*)) (reject I (k*)) (sort I) (eachSlice I n) (mapKeys I k)
 //   arr  <step>*     a pool of immutable types.Array values
 //        (lit v*) (add I v) (addAll I J) (delete I v) (deleteAll I J) (slice I i j) (unique I) (at I i)
+//        (sort I) (eachSlice I n) (flatten I) (find I v) (len I)
 //
 //   K ::= xHEX   V ::= INT      value k, v ::= INT | xHEX | (a value*)
 //
@@ -20,6 +23,7 @@ package c09
 import (
 	"fmt"
 	"math/rand"
+	"sort"
 	"strconv"
 	"strings"
 
@@ -326,7 +330,7 @@ func shUniverse(steps []sx.Sexp) ([]string, bool) {
 				}
 				add(p.List[0].Atom)
 			}
-		case "copy", "freeze", "swap", "empty":
+		case "copy", "freeze", "swap", "empty", "equals", "views":
 			if len(a) != 0 {
 				return nil, false
 			}
@@ -487,6 +491,39 @@ func execSH(steps []sx.Sexp) core.Result {
 			cur = hash.EmptyStringHash
 			ref = newRef()
 			ref.frozen = true
+		case "equals":
+			if old == nil {
+				res = "skip"
+				break
+			}
+			run(func() { res = op + "=" + sx.B(cur.Equals(old, nil)) + "," + sx.B(old.Equals(cur, nil)) })
+			same := len(ref.keys) == len(oldRef.keys)
+			for _, k := range ref.keys {
+				same = same && oldRef.has(k) && oldRef.vals[k] == ref.vals[k]
+			}
+			if exp := op + "=" + sx.B(same) + "," + sx.B(same); fault == nil && res != exp {
+				fs.add("sh-equals", "step %d: Equals answered %s, reference %s", si, res, exp)
+			}
+		case "views":
+			run(func() {
+				ks, vs := []string{}, []string{}
+				cur.EachKey(func(k string) { ks = append(ks, sx.Str(k).Atom) })
+				cur.EachValue(func(v interface{}) { vs = append(vs, iv(v)) })
+				all := cur.AllPair(func(_ string, v interface{}) bool { return v != int64(1) })
+				any := cur.AnyPair(func(_ string, v interface{}) bool { return v == int64(1) })
+				res = op + "=K[" + strings.Join(ks, " ") + "] V[" + strings.Join(vs, " ") + "] " + sx.B(cur.Empty()) + sx.B(all) + sx.B(any)
+			})
+			vs := []string{}
+			all, any := true, false
+			for _, k := range ref.keys {
+				vs = append(vs, ref.vals[k])
+				all = all && ref.vals[k] != "1"
+				any = any || ref.vals[k] == "1"
+			}
+			exp := op + "=K[" + strings.Join(ref.keys, " ") + "] V[" + strings.Join(vs, " ") + "] " + sx.B(len(ref.keys) == 0) + sx.B(all) + sx.B(any)
+			if fault == nil && res != exp {
+				fs.add("sh-views-differ", "step %d: %s, reference %s", si, res, exp)
+			}
 		}
 		o, of := shObs(cur, uni)
 		if fault == nil {
@@ -820,6 +857,31 @@ func hashUniverse(steps []sx.Sexp) ([]sx.Sexp, bool) {
 			if len(a) != 0 {
 				return nil, false
 			}
+		case "select", "reject":
+			if len(a) != 2 || !isRef(a[0]) || !a[1].IsList {
+				return nil, false
+			}
+			for _, k := range a[1].List {
+				if !add(k) {
+					return nil, false
+				}
+			}
+		case "slice":
+			if len(a) != 3 || !isRef(a[0]) || !isRef(a[1]) || !isRef(a[2]) {
+				return nil, false
+			}
+		case "sort":
+			if len(a) != 1 || !isRef(a[0]) {
+				return nil, false
+			}
+		case "eachSlice":
+			if len(a) != 2 || !isRef(a[0]) || !isIntAtom(a[1]) {
+				return nil, false
+			}
+		case "mapKeys":
+			if len(a) != 2 || !isRef(a[0]) || !add(a[1]) {
+				return nil, false
+			}
 		default:
 			return nil, false
 		}
@@ -1000,6 +1062,123 @@ func execHash(steps []sx.Sexp) core.Result {
 				pool = append(pool, made)
 				failClass = "delete-wrong-keys"
 			}
+		case "slice", "select", "reject", "sort", "mapKeys":
+			s := slot(0)
+			if s == nil {
+				res = "bad-ref"
+				break
+			}
+			if s.mutable != nil {
+				res = "skip" // the immutable operations are exercised on immutable hashes
+				break
+			}
+			r := newRef()
+			tainted := s.tainted
+			var h px.OrderedMap
+			switch op {
+			case "slice":
+				i, j := int(a[1].MustInt()), int(a[2].MustInt())
+				if !(i <= j && j <= len(s.ref.keys)) {
+					res = "skip" // bounds outside the value: a caller error, outside the property
+					break
+				}
+				for _, k := range s.ref.keys[i:j] {
+					r.put(k, s.ref.vals[k])
+				}
+				fault = safely(func() { h = s.h.(px.List).Slice(i, j).(px.OrderedMap) })
+				failClass = "slice-wrong"
+			case "select", "reject":
+				in := map[string]bool{}
+				for _, k := range a[1].List {
+					ks, _ := valStr(k)
+					in[ks] = true
+				}
+				for _, k := range s.ref.keys {
+					if in[k] == (op == "select") {
+						r.put(k, s.ref.vals[k])
+					}
+				}
+				pred := func(k, _ px.Value) bool { return in[show(k)] }
+				fault = safely(func() {
+					if op == "select" {
+						h = s.h.SelectPairs(pred)
+					} else {
+						h = s.h.RejectPairs(pred)
+					}
+				})
+				failClass = "filter-wrong"
+			case "sort":
+				ks := append([]string{}, s.ref.keys...)
+				sort.Strings(ks)
+				for _, k := range ks {
+					r.put(k, s.ref.vals[k])
+				}
+				fault = safely(func() {
+					h = s.h.(px.SortableList).Sort(func(x, y px.Value) bool { return show(x) < show(y) }).(px.OrderedMap)
+				})
+				failClass = "sort-wrong"
+			case "mapKeys":
+				// every key becomes the same key: the specification's map keeps one entry (first position, last value)
+				nk, _ := valStr(a[1])
+				nkv := valOf(a[1])
+				for _, k := range s.ref.keys {
+					r.put(nk, s.ref.vals[k])
+				}
+				tainted = tainted || len(s.ref.keys) > 1
+				fault = safely(func() {
+					h = s.h.MapEntries(func(e px.MapEntry) px.MapEntry { return types.WrapHashEntry(nkv, e.Value()) })
+				})
+				failClass = "literal-wrong"
+			}
+			if h != nil {
+				if !r.equal(s.ref) {
+					changed = true
+				}
+				made = &hslot{h: h, ref: r, tainted: tainted}
+				pool = append(pool, made)
+			}
+		case "eachSlice":
+			s := slot(0)
+			if s == nil {
+				res = "bad-ref"
+				break
+			}
+			n := int(a[1].MustInt())
+			chunks := []string{}
+			e := safely(func() {
+				s.h.(px.List).EachSlice(n, func(c px.List) {
+					parts := []string{}
+					c.Each(func(x px.Value) { parts = append(parts, show(x)) })
+					chunks = append(chunks, "("+strings.Join(parts, " ")+")")
+				})
+			})
+			exp := []string{}
+			if n >= 1 {
+				for i := 0; i < len(s.ref.keys); i += n {
+					parts := []string{}
+					for j := i; j < i+n && j < len(s.ref.keys); j++ {
+						parts = append(parts, s.ref.keys[j]+"="+s.ref.vals[s.ref.keys[j]])
+					}
+					exp = append(exp, "("+strings.Join(parts, " ")+")")
+				}
+			}
+			switch {
+			case e != nil && n < 1 && strings.Contains(fmt.Sprint(e), "EachSlice"):
+				res = op + "=illegal"
+			case e != nil:
+				fault = e
+			default:
+				res = op + "=[" + strings.Join(chunks, " ") + "]"
+				if n < 1 {
+					fs.add("hash-eachSlice", "step %d %s: a slice size below one was accepted", si, st)
+				} else if !sameStrings(chunks, exp) {
+					cl := "hash-eachSlice"
+					if s.tainted {
+						cl = "literal-dup-keys"
+					}
+					fs.add(cl, "step %d %s: impl %s reference %s", si, st, res, strings.Join(exp, " "))
+				}
+			}
 		case "get", "get4":
 			s := slot(0)
 			if s == nil {
@@ -1171,6 +1350,27 @@ func hashClass(exp, got *obs, opClass string) string {
 
 func arrStr(l px.List) string { return show(l.(px.Value)) }
 
+// flattenTexts: the reference of Flatten on canonical texts (an array text is `(a …)`)
+func flattenTexts(vs []string) []string {
+	out := []string{}
+	for _, v := range vs {
+		if strings.HasPrefix(v, "(") {
+			xs, err := sx.Parse(v)
+			if err != nil || len(xs) != 1 {
+				panic("flattenTexts: " + v)
+			}
+			kids := []string{}
+			for _, k := range xs[0].Args() {
+				kids = append(kids, k.String())
+			}
+			out = append(out, flattenTexts(kids)...)
+		} else {
+			out = append(out, v)
+		}
+	}
+	return out
+}
+
 func execArr(steps []sx.Sexp) core.Result {
 	type aslot struct {
 		a    px.List
@@ -1203,8 +1403,15 @@ func execArr(steps []sx.Sexp) core.Result {
 			ok = len(a) == 2 && isIntAtom(a[0]) && isIntAtom(a[1]) && a[0].MustInt() >= 0
 		case "slice":
 			ok = len(a) == 3 && isIntAtom(a[0]) && isIntAtom(a[1]) && isIntAtom(a[2]) && a[0].MustInt() >= 0 && a[1].MustInt() >= 0 && a[2].MustInt() >= 0
-		case "unique":
+		case "unique", "sort", "flatten", "len":
 			ok = len(a) == 1 && isIntAtom(a[0]) && a[0].MustInt() >= 0
+		case "eachSlice":
+			ok = len(a) == 2 && isIntAtom(a[0]) && isIntAtom(a[1]) && a[0].MustInt() >= 0
+		case "find":
+			ok = len(a) == 2 && isIntAtom(a[0]) && a[0].MustInt() >= 0
+			if ok {
+				_, ok = valStr(a[1])
+			}
 		default:
 			ok = false
 		}
@@ -1336,6 +1543,100 @@ func execArr(steps []sx.Sexp) core.Result {
 			if fault == nil {
 				mk(l, append([]string{}, s.ref[i:j]...))
 			}
+		case "sort":
+			s := slot(0)
+			if s == nil {
+				res = "bad-ref"
+				break
+			}
+			var l px.List
+			fault = safely(func() { l = s.a.(px.SortableList).Sort(func(x, y px.Value) bool { return show(x) < show(y) }) })
+			if fault == nil {
+				r := append([]string{}, s.ref...)
+				sort.Strings(r)
+				changed = changed || !sameStrings(r, s.ref)
+				mk(l, r)
+			}
+		case "flatten":
+			s := slot(0)
+			if s == nil {
+				res = "bad-ref"
+				break
+			}
+			var l px.List
+			fault = safely(func() { l = s.a.Flatten() })
+			if fault == nil {
+				r := flattenTexts(s.ref)
+				changed = changed || !sameStrings(r, s.ref)
+				mk(l, r)
+			}
+		case "len":
+			s := slot(0)
+			if s == nil {
+				res = "bad-ref"
+				break
+			}
+			res = op + "=" + strconv.Itoa(s.a.Len())
+			if s.a.Len() != len(s.ref) {
+				fs.add("arr-len", "step %d %s: impl %s reference %d", si, st, res, len(s.ref))
+			}
+		case "find":
+			s := slot(0)
+			if s == nil {
+				res = "bad-ref"
+				break
+			}
+			want, _ := valStr(a[1])
+			wv := valOf(a[1])
+			fault = safely(func() {
+				if v, ok := s.a.Find(func(e px.Value) bool { return e.Equals(wv, nil) }); ok {
+					res = op + "=" + show(v)
+				} else {
+					res = op + "=_"
+				}
+			})
+			exp := op + "=_"
+			for _, v := range s.ref {
+				if v == want {
+					exp = op + "=" + v
+					break
+				}
+			}
+			if fault == nil && res != exp {
+				fs.add("arr-find", "step %d %s: impl %s reference %s", si, st, res, exp)
+			}
+		case "eachSlice":
+			s := slot(0)
+			if s == nil {
+				res = "bad-ref"
+				break
+			}
+			n := int(a[1].MustInt())
+			chunks := []string{}
+			e := safely(func() { s.a.EachSlice(n, func(c px.List) { chunks = append(chunks, show(c.(px.Value))) }) })
+			exp := []string{}
+			if n >= 1 {
+				for i := 0; i < len(s.ref); i += n {
+					j := i + n
+					if j > len(s.ref) {
+						j = len(s.ref)
+					}
+					exp = append(exp, refStr(s.ref[i:j]))
+				}
+			}
+			switch {
+			case e != nil && n < 1 && strings.Contains(fmt.Sprint(e), "EachSlice"):
+				res = op + "=illegal" // a slice size below one is a reported illegal argument
+			case e != nil:
+				fault = e
+			default:
+				res = op + "=[" + strings.Join(chunks, " ") + "]"
+				if n < 1 {
+					fs.add("arr-eachSlice", "step %d %s: a slice size below one was accepted", si, st)
+				} else if !sameStrings(chunks, exp) {
+					fs.add("arr-eachSlice", "step %d %s: impl %s reference %s", si, st, res, strings.Join(exp, " "))
+				}
+			}
 		case "at":
 			s := slot(0)
 			if s == nil {
@@ -1436,7 +1737,8 @@ func hashAlphabet() []string {
 		}
 		ops = append(ops, "(delete L "+key+")")
 	}
-	ops = append(ops, "(deleteAll L (1 "+k("1")+"))", "(deleteAll L ((a 1) "+k("a")+" 1))", "(merge L 0)", "(merge 1 L)", "(get 0 (a 1))")
+	ops = append(ops, "(deleteAll L (1 "+k("1")+"))", "(deleteAll L ((a 1) "+k("a")+" 1))", "(merge L 0)", "(merge 1 L)", "(get 0 (a 1))",
+		"(slice L 1 2)", "(select L ("+k("1")+" (a 1)))", "(sort L)")
 	return ops
 }
 
@@ -1489,6 +1791,10 @@ func randSH(r *rand.Rand, n int) string {
 			ops = append(ops, "(merge "+randSHPairs(r)+")")
 		case x < 92:
 			ops = append(ops, "(putall "+randSHPairs(r)+")")
+		case x < 93:
+			ops = append(ops, "(equals)")
+		case x < 94:
+			ops = append(ops, "(views)")
 		case x < 95:
 			ops = append(ops, "(swap)")
 		case x < 96:
@@ -1566,10 +1872,40 @@ func randHash(r *rand.Rand, n int, dups bool, mutable bool) string {
 			}
 			ops = append(ops, "(deleteAll "+ref()+" ("+strings.Join(ks, " ")+"))")
 			size++
-		case x < 88:
+		case x < 85:
 			ops = append(ops, "(get "+ref()+" "+randHKey(r)+")")
-		case x < 92:
+		case x < 87:
 			ops = append(ops, "(get4 "+ref()+" "+[]string{"x31", "x61", "x62", "x"}[r.Intn(4)]+")")
+		case x < 92:
+			ks := []string{}
+			for j := r.Intn(4); j > 0; j-- {
+				ks = append(ks, randHKey(r))
+			}
+			switch r.Intn(6) {
+			case 0:
+				ops = append(ops, "(select "+ref()+" ("+strings.Join(ks, " ")+"))")
+				size++
+			case 1:
+				ops = append(ops, "(reject "+ref()+" ("+strings.Join(ks, " ")+"))")
+				size++
+			case 2:
+				ops = append(ops, "(sort "+ref()+")")
+				size++
+			case 3:
+				ops = append(ops, "(eachSlice "+ref()+" "+strconv.Itoa(r.Intn(5)-1)+")")
+			case 4:
+				if dups && r.Intn(3) == 0 {
+					ops = append(ops, "(mapKeys "+ref()+" "+randHKey(r)+")")
+					size++
+				} else {
+					ops = append(ops, "(eachSlice "+ref()+" 2)")
+				}
+			default:
+				// slice with bounds that are usually valid for small hashes; an invalid one is skipped on both sides, so
+				// address the result only through `get` right afterwards
+				i := r.Intn(3)
+				ops = append(ops, "(slice "+ref()+" "+strconv.Itoa(i)+" "+strconv.Itoa(i+r.Intn(3))+")")
+			}
 		default:
 			if !mutable {
 				ops = append(ops, "(get "+ref()+" "+randHKey(r)+")")
@@ -1628,11 +1964,23 @@ func randArr(r *rand.Rand, n int) string {
 			i := r.Intn(4)
 			ops = append(ops, "(slice "+ref()+" "+strconv.Itoa(i)+" "+strconv.Itoa(i+r.Intn(3))+")")
 			size++ // may be skipped; later refs beyond the pool answer bad-ref on both sides
-		case x < 88:
+		case x < 84:
 			ops = append(ops, "(unique "+ref()+")")
 			size++
+		case x < 88:
+			ops = append(ops, "(sort "+ref()+")")
+			size++
+		case x < 91:
+			ops = append(ops, "(flatten "+ref()+")")
+			size++
+		case x < 94:
+			ops = append(ops, "(eachSlice "+ref()+" "+strconv.Itoa(r.Intn(5)-1)+")")
+		case x < 96:
+			ops = append(ops, "(find "+ref()+" "+randHKey(r)+")")
+		case x < 97:
+			ops = append(ops, "(len "+ref()+")")
 		default:
-			ops = append(ops, "(at "+ref()+" "+strconv.Itoa(r.Intn(6))+")")
+			ops = append(ops, "(at "+ref()+" "+strconv.Itoa(r.Intn(7)-1)+")")
 		}
 	}
 	return "arr " + strings.Join(ops, " ")
@@ -1643,15 +1991,23 @@ func gen(g *core.G) {
 	if g.Thorough() {
 		n = 5
 	}
-	// 1. exhaustive small universes
-	sequences(shAlphabet(), n, func(ops []string) { g.Emit("sh " + strings.Join(ops, " ")) })
+	// 1. exhaustive small universes.  StringHash: every sequence of length 4 over the full alphabet (17 operations); the
+	// thorough tier adds every sequence of length 5 over a 12-operation sub-alphabet (1.4 million lines of length 5 over
+	// the full alphabet made the run memory-bound: ops timed out under load although nothing was wrong)
+	sequences(shAlphabet(), 4, func(ops []string) { g.Emit("sh " + strings.Join(ops, " ")) })
+	if g.Thorough() {
+		small := []string{"(put " + k("a") + " 1)", "(put " + k("a") + " 2)", "(put " + k("b") + " 1)", "(put " + k("c") + " 1)",
+			"(delete " + k("a") + ")", "(delete " + k("b") + ")", "(delete " + k("c") + ")", "(cia " + k("a") + " 3)", "(cia " + k("c") + " 3)",
+			"(merge (" + k("a") + " 4) (" + k("c") + " 5))", "(copy)", "(freeze)"}
+		sequences(small, 5, func(ops []string) { g.Emit("sh " + strings.Join(ops, " ")) })
+	}
 	halpha := hashAlphabet()
 	sequences(halpha, n-1, func(ops []string) {
 		// pool[0] = {1=>1, '1'=>2, [1]=>3}; `L` = the hash made by the previous step
 		out := []string{"(wrap (1 1) (" + k("1") + " 2) ((a 1) 3))"}
 		size := 1
 		for _, o := range ops {
-			made := !strings.HasPrefix(o, "(get") && !(strings.HasPrefix(o, "(merge 1") && size < 2)
+			made := !strings.HasPrefix(o, "(get") && !(strings.HasPrefix(o, "(merge 1") && size < 2) && !strings.HasPrefix(o, "(slice")
 			out = append(out, strings.Replace(o, " L", " "+strconv.Itoa(size-1), -1))
 			if made {
 				size++
